@@ -7,6 +7,8 @@
   * `members_each_once` — when no streamed LIMIT is active (no limit, or the query is buffered: D13
     fixed) the member loop is exactly the left fold of `check_file` over the member table, in table
     order: every member is examined once, none twice, none skipped;
+  * `members_independent_of_maxdepth`, `archive_report` — the member loop is part of reporting an entry: it depends on
+    the depth window only through the `mindepth` gate, never on `maxdepth`;
   * `members_limit_prefix` — under a streamed LIMIT the loop stops as soon as the limit is reached and
     otherwise behaves like that fold (same WHERE/LIMIT treatment as ordinary entries);
   * `member_name`, `member_path`, `member_size`, `member_is_dir`, `member_mode` — the documented columns
@@ -46,6 +48,29 @@ theorem members_each_once (p : Plan) (e : Entry) (ms : List ArcInfo) (st : ResSt
     cases checkFile p st { e with arc := some a } with
     | error x => rfl
     | ok st' => exact ih st'
+
+/-- **the member loop belongs to the report step, not to the descent**: what is reported for an entry — its own
+    row and, for a zip archive under `archives`, its members — depends on the depth window only through the
+    `mindepth` gate; `maxdepth` (which only limits descending into directories) plays no part.  So an archive on the
+    last level of a `maxdepth` window lists its members like any other archive inside the window. -/
+theorem members_independent_of_maxdepth (p : Plan) (rp rp' : RootParams) (lvl : Nat) (n : Node) (e : Entry) (rs : ResSt)
+    (h1 : rp.minDepth = rp'.minDepth) (h2 : rp.archives = rp'.archives) :
+    reportEntry p rp lvl n e rs = reportEntry p rp' lvl n e rs := by
+  unfold reportEntry
+  rw [h1, h2]
+
+/-- inside the window an archive's report is its own row followed by the member loop -/
+theorem archive_report (p : Plan) (rp : RootParams) (lvl : Nat) (le e : Entry) (ms : List ArcInfo) (rs : ResSt)
+    (hmin : rp.minDepth = 0 ∨ rp.minDepth ≤ lvl) (harc : rp.archives = true) (hext : hasExtension e.path p.cfg.zipExts = true) :
+    reportEntry p rp lvl (.leaf le (some ms)) e rs =
+      match checkFile p rs e with
+      | .error a => .error a
+      | .ok s => checkMembers p s e ms := by
+  unfold reportEntry
+  have hg : (rp.minDepth == 0 || decide (lvl ≥ rp.minDepth)) = true := by
+    rcases hmin with h | h <;> simp [h]
+  simp only [hg, if_true, harc, hext, Bool.and_self]
+  cases checkFile p rs e <;> rfl
 
 /-- a streamed LIMIT stops the loop exactly when it is reached -/
 theorem members_limit_prefix (p : Plan) (e : Entry) (a : ArcInfo) (as : List ArcInfo) (st : ResSt) :
